@@ -38,6 +38,7 @@ pub struct Tx {
     /// method of the request, and which integrity algorithms it carries (SHA-1, SHA-256)
     pub method: u16,
     pub req_algs: (bool, bool),
+    pub req_fp: bool,
     /// cancelled, already gone from the agent's table (the id was re-used), but its
     /// TransactionCancelled report has not been seen yet
     pub report_pending: bool,
@@ -91,6 +92,9 @@ pub struct Model {
     /// about: the new transaction of a `send`, the one a `poll` retransmitted; `None` for a refused
     /// send, a non-request, a poll that answered anything else.  Used by C20's leak clause.
     pub instants: Vec<(u64, Option<usize>)>,
+    /// set by the driver before `on_poll` when a `TransactionCancelled(id)` is ambiguous (see there):
+    /// whether the live transaction with that id is gone from the agent
+    pub hint_live_gone: Option<bool>,
 }
 
 fn v(p: &str, clause: &str, site: &str, m: String) -> Violation {
@@ -116,7 +120,7 @@ pub fn configured_schedule(tcp: bool, rto_ms: u64, n: u32, last_ms: u64) -> (Vec
 
 impl Model {
     pub fn new(tcp: bool, local: SocketAddr) -> Self {
-        Self { tcp, local, txs: vec![], validated: BTreeSet::new(), remote: None, last_wait: None, dropped_since_wait: false, check_prop: String::new(), tolerated: vec![], instants: vec![] }
+        Self { tcp, local, txs: vec![], validated: BTreeSet::new(), remote: None, last_wait: None, dropped_since_wait: false, check_prop: String::new(), tolerated: vec![], instants: vec![], hint_live_gone: None }
     }
     pub fn live_idx(&self, tid: u128) -> Option<usize> {
         self.txs.iter().position(|t| t.tid == tid && t.status == Status::Live)
@@ -154,6 +158,11 @@ impl Model {
     /// outstanding transaction's current interval counted from an instant that was handed to a call
     /// that was not about that transaction, instead of from its own last transmission.
     fn leak_explanation(&self, t: i128) -> Option<String> {
+        // a wake-up that is some outstanding transaction's own, correct, next instant is not a leak
+        // (it may still be the wrong minimum: C06's business)
+        if self.live().any(|tx| !tx.rc && !tx.sc && tx.next_instant() as i128 == t) {
+            return None;
+        }
         for (i, tx) in self.txs.iter().enumerate() {
             if tx.status != Status::Live || tx.rc {
                 continue;
@@ -169,6 +178,10 @@ impl Model {
             }
         }
         None
+    }
+    /// A `TransactionCancelled(tid)` could belong to either of two transactions with this id.
+    pub fn ambiguous_cancel(&self, tid: u128) -> bool {
+        self.txs.iter().any(|t| t.tid == tid && t.report_pending) && self.live_idx(tid).map_or(false, |i| self.txs[i].sc && !self.txs[i].rc)
     }
     fn invalidate_wait(&mut self) {
         self.last_wait = None;
@@ -190,7 +203,8 @@ impl Model {
             } else {
             self.note_instant(now, None);
             return match reply {
-                Reply::SendErr(e) if e.contains("AlreadyInProgress") => Ok(()),
+                // any error is a refusal (which variant, and how it prints, is not the property's business)
+                Reply::SendErr(_) => Ok(()),
                 o => Err(v("C05", "duplicate_id_refused", "send", format!("send of a request whose id {tid:#x} is outstanding answered {}", o.short()))),
             };
             }
@@ -236,6 +250,7 @@ impl Model {
                 Verdict::Accept(view) => (view.all.iter().any(|a| a.ty == refcodec::MI), view.all.iter().any(|a| a.ty == refcodec::MI256)),
                 _ => (false, false),
             },
+            req_fp: matches!(refcodec::decode(bytes), Verdict::Accept(view) if view.all.last().map(|a| a.ty) == Some(refcodec::FP)),
             report_pending: false,
         });
         let idx = self.txs.len() - 1;
@@ -386,11 +401,23 @@ impl Model {
                 Ok(PollOutcome::TimedOut(*tid))
             }
             Reply::Cancelled(tid) => {
+                // a report for an id that was re-used while its cancellation report was still owed: it
+                // belongs to the live transaction if that one was cancelled too (the owed one may then
+                // still come, or never), to the owed one otherwise; when the live one had only its
+                // retransmissions cancelled the driver asks the agent which of the two is gone
                 if let Some(j) = self.txs.iter().position(|t| t.tid == *tid && t.report_pending) {
-                    self.txs[j].report_pending = false;
-                    self.note_instant(now, None);
-                    self.invalidate_wait();
-                    return Ok(PollOutcome::Wait);
+                    let live = self.live_idx(*tid);
+                    let book_on_live = match live {
+                        Some(i) if self.txs[i].rc => true,
+                        Some(i) if self.txs[i].sc => self.hint_live_gone.take().unwrap_or(false),
+                        _ => false,
+                    };
+                    if !book_on_live {
+                        self.txs[j].report_pending = false;
+                        self.note_instant(now, None);
+                        self.invalidate_wait();
+                        return Ok(PollOutcome::Cancelled(*tid));
+                    }
                 }
                 let Some(i) = self.live_idx(*tid) else {
                     return Err(v("C05", "completion_only_for_outstanding", "poll", format!("poll reported a cancellation for {tid:#x} which is not outstanding")));
@@ -462,7 +489,15 @@ impl Model {
                 _ => None,
             };
             let resp_algs = resp_view.as_ref().map(|v| (v.exposed.iter().any(|&i| v.all[i].ty == refcodec::MI), v.exposed.iter().any(|&i| v.all[i].ty == refcodec::MI256)));
-            let canonical = from == tx.dest && refcodec::method_of(resp_type) == tx.method && match resp_algs {
+            // ... with a FINGERPRINT exactly if the request had one (RFC 8489 s7.3 policing), full-length
+            // MACs, and no attribute a receiver could refuse as unknown comprehension-required
+            let resp_fp = resp_view.as_ref().map_or(false, |v| v.all.last().map(|a| a.ty) == Some(refcodec::FP));
+            let plain = resp_view.as_ref().map_or(false, |v| v.all.iter().all(|a| match a.ty {
+                refcodec::MI => a.len == 20,
+                refcodec::MI256 => a.len == 32,
+                t => t >= 0x8000 || matches!(t, 0x0001 | 0x0006 | 0x0009 | 0x000A | 0x0014 | 0x0015 | 0x0020),
+            }));
+            let canonical = from == tx.dest && refcodec::method_of(resp_type) == tx.method && resp_fp == tx.req_fp && plain && match resp_algs {
                 Some(a) => a == tx.req_algs,
                 None => false,
             };
@@ -479,20 +514,17 @@ impl Model {
                     None => Exp::Drop,
                     Some(rc) => match refcodec::decode(bytes) {
                         Verdict::Accept(view) => {
-                            // only the *exposed* integrity attributes take part (one hidden behind
-                            // the first is not authenticated data); the last exposed one covers
-                            // everything before it, the other MAC included
-                            let s: Vec<(usize, u16, bool)> = refcodec::integrity_status(bytes, &view, &rc.reference()).into_iter().filter(|x| view.exposed.contains(&x.0)).collect();
-                            let ok = s.iter().filter(|x| x.2).count();
-                            if s.is_empty() || ok == 0 {
+                            let all = refcodec::integrity_status(bytes, &view, &rc.reference());
+                            let exposed_ok = all.iter().filter(|x| view.exposed.contains(&x.0)).all(|x| x.2) && all.iter().any(|x| view.exposed.contains(&x.0));
+                            if !refcodec::ok_verdict_acceptable(&all, &view.exposed, None) {
+                                // no integrity attribute, none correct, or every correct one is followed
+                                // by a wrong exposed one (what tampering produces): must be dropped
+                                if all.iter().any(|x| x.2) {
+                                    st.inc("probe.mixed_integrity_pair_last_wrong");
+                                }
                                 Exp::Drop
-                            } else if ok == s.len() {
+                            } else if exposed_ok {
                                 if canonical { Exp::Deliver } else { Exp::Either }
-                            } else if !s.last().unwrap().2 {
-                                // wrong last MAC over a correct earlier one: byte for byte what
-                                // tampering with a correctly sealed response produces
-                                st.inc("probe.mixed_integrity_pair_last_wrong");
-                                Exp::Drop
                             } else {
                                 st.inc("probe.mixed_integrity_pair");
                                 Exp::Either
